@@ -330,7 +330,23 @@ def make_case(prop, seed, i, tier):
                     w["skills"][t["name"]] = rng.choice([0.5, 1.0, 2.0])
         for tm in spec["teams"]:
             tm["targets"] = sorted(set(tm["targets"]) | set(k for k in range(len(spec["tasks"])) if rng.random() < 0.7))
-    return dict(prop=prop, i=i, kind="sim", spec=spec)
+    case = dict(prop=prop, i=i, kind="sim", spec=spec)
+    if i % 8 == 1 and rng.random() < 0.6:
+        # (for the pause-edit-resume cases) a task that no team targets until the pause: it is assigned to a team
+        # whose workers can do it only then - and competes with what those workers would otherwise take
+        cand = [k for k, t in enumerate(spec["tasks"]) if not t["auto"] and not t["need_facility"] and t["progress"] < 1.0 and t["work"] > 0]
+        if cand:
+            h = rng.choice(cand)
+            ti = rng.randrange(len(spec["teams"]))
+            for tm in spec["teams"]:
+                if h in tm["targets"]:
+                    tm["targets"].remove(h)
+            for w in spec["teams"][ti]["workers"]:
+                if rng.random() < 0.8:
+                    w["skills"][spec["tasks"][h]["name"]] = rng.choice([1.0, 2.0])
+            spec["tasks"][h]["fixed_workers"] = None
+            case["late_target"] = [ti, h]
+    return case
 
 
 def direct_calls(case, res):
@@ -492,11 +508,38 @@ def run_case(case):
     spec = case["spec"]
     chk = SortChecker(Sink(res))
     _current[0] = chk
-    try:
-        rule = TR(spec["sim"]["rule"])
-        m, tr, err = forward(spec, lambda started: [MonInversion(rule)])
-    finally:
-        _current[0] = None
+    rule = TR(spec["sim"]["rule"])
+    if case["i"] % 8 == 1:
+        # pause, in-place edits (a team's targets, a new worker, skills, ...), resume - one monitor over both calls
+        import random as _random
+        from . import edits as E
+        from .runner import exc_info
+        er = _random.Random(case["i"] * 17 + 3)
+        I.set_order(I.default_order(spec))
+        m = B.build(spec)
+        started = M.StartedSnap()
+        tr = I.Tracer([started, MonInversion(rule)])
+        err = None
+        try:
+            with I.tracing(tr):
+                B.run(m.project, spec, max_time=er.choice([1, 2, 3, 5]))
+                if case.get("late_target") and not spec["teams"][case["late_target"][0]].get("ctor_targets"):
+                    ti_, h_ = case["late_target"]
+                    spec["teams"][ti_]["targets"].append(h_)
+                    m.teams[ti_].append_targeted_task(m.tasks[h_])
+                    res.count("C11.task_targeted_only_from_the_pause_on")
+                spec, _what = E.edit(er, spec, m, n=er.randint(0, 2) or None, only=E.STRUCT + ("team_target_add",) * 6 + ("add_worker",) * 2 + ("skill", "skill_busy", "solo", "rule"))
+                B.run(m.project, spec, initialize_state_info=False, initialize_log_info=False)
+        except Exception as e:
+            err = exc_info(e)
+        finally:
+            _current[0] = None
+        res.count("C11.sim_runs_paused_edited_resumed")
+    else:
+        try:
+            m, tr, err = forward(spec, lambda started: [MonInversion(rule)])
+        finally:
+            _current[0] = None
     res.absorb(tr, props=("C11",))
     if err is None and case["i"] % 4 == 1:
         # the same objects simulated again after in-place parameter edits, sorts and allocation still monitored
